@@ -265,6 +265,16 @@ func c10Selector(c *fw.Ctx, rng *fw.RNG) {
 			rootNode, _ = build.Plain(basicnode.Prototype.Bytes, root)
 		}
 	}
+	// one walk in five runs over a root that FAILS: its iterators and its lookups (of children its iterator just
+	// listed) return an error after k calls — a node backed by storage can. The walk
+	// must end with an error, not with a panic (round-4 seed C10-12: a dropped lookup error followed by a call
+	// on the nil node).
+	if rng.Chance(1, 5) {
+		// (iterators and lookups only: an As* accessor failing on a node of that very kind is what the library
+		// itself calls a node violating its contract — datamodel.Copy says so — and is not part of the fault model)
+		rootNode = fnode.NewFaulty(root, &fnode.Fault{After: rng.Intn(12), Lookups: true})
+		c.Count("walks_over_failing_nodes", 1)
+	}
 	lsys := c10HostileLinkSystem(rng, g)
 	cfg := &traversal.Config{LinkSystem: lsys, LinkTargetNodePrototypeChooser: func(datamodel.Link, linking.LinkContext) (datamodel.NodePrototype, error) {
 		return basicnode.Prototype.Any, nil
